@@ -58,6 +58,37 @@ TRIAGE = {
     "199": ("no property", "zstd `fastest()` level 1 -> 2: as 197"),
     "200": ("equivalent", "brotli output buffer size constant"),
     "201": ("equivalent", "as 200"),
+    # ---- second batch (numbered from 301) ----
+    "301": ("no property", "TLS key log enabled when it was not asked for"),
+    "302": ("no property", "unidirectional streams no longer forbidden (nothing opens one)"),
+    "303": ("no property", "the configured idle timeout is not passed on: quinn's default applies; no property fixes its value"),
+    "304": ("no property", "stateless retry switched on although not asked for: one more round trip in the handshake"),
+    "305": ("no property", "stateless retry never switched on"),
+    "312": ("dead code", "BiStream::finish is not used by the streams (they finish their halves themselves)"),
+    "313": ("no property", "brotli encoder parameter constant (quality / window / block size): another valid setting, the round trip is unchanged"),
+    "314": ("no property", "as 313"), "315": ("no property", "as 313"), "316": ("no property", "as 313"),
+    "317": ("no property", "as 313"), "318": ("no property", "as 313"), "319": ("no property", "as 313"),
+    "321": ("equivalent", "explicit flush before into_inner(), which finishes the stream anyway"),
+    "323": ("out of reach", "CA validity period: certificate expiry is not exercised (the wall clock is frozen inside the simulation, stated limit)"),
+    "329": ("no property", "CA key usage DigitalSignature dropped: the rustls/webpki verifiers do not check keyUsage"),
+    "330": ("no property", "CA key usage KeyCertSign dropped: as 329"),
+    "331": ("no property", "CA key usage CrlSign dropped: as 329"),
+    "332": ("no property", "leaf key usage DigitalSignature dropped: as 329"),
+    "333": ("no property", "leaf extendedKeyUsage dropped: a certificate without EKU is accepted for any purpose; trusted peers still accepted, untrusted still refused"),
+    "334": ("out of reach", "leaf validity period, as 323"),
+    "335": ("out of reach", "seconds per day 86400 -> 86401: validity dates, as 323"),
+    "336": ("out of reach", "as 335"),
+    "340": ("equivalent", "the last sink gets a clone of the item like the others instead of the item itself"),
+    "344": ("dead code", "FanoutMany::poll_close"),
+    "357": ("equivalent", "Router::poll_flush reports Ready although one requestor sink is Pending: that sink has stored the waker, the router comes back and flushes again (the request/reply shutdown path does not promise a flush, see DESIGN section 11)"),
+    "359": ("dead code", "Router::poll_close"), "360": ("dead code", "Router::poll_close"),
+    "361": ("dead code", "Router::poll_close"), "362": ("dead code", "Router::poll_close"),
+    "363": ("out of reach", "Ctrl-C arm of Server::listen, as 078"),
+    "364": ("equivalent", "a string whose byte 1 is not a character boundary is reported as reserved instead of malformed: refused either way"),
+    "370": ("no property", "as 305"),
+    "371": ("no property", "a key path without extension is read as DER: the generator and the checks use .der / .pem names"),
+    "372": ("no property", "as 371, certificate chain"),
+    "373": ("no property", "authority key identifier extension not emitted: not needed for chain building here"),
 }
 
 def main():
@@ -72,6 +103,8 @@ def main():
     verdicts = collections.Counter()
     out = []
     out.append("# Mechanical mutants against the quick checks\n")
+    out.append("Two batches: 1-203 (`gen`: 24 files) and 301-373 (`gen2`: the same operators on 17 more files, plus")
+    out.append("literal flips, break/continue, min/max, +-1, saturating/wrapping, counters not incremented on all 41).")
     out.append("Generated by `tools/mech_mutants.py` (every instance of a few single-token operators in the files the")
     out.append("properties are anchored in: negated `if`, `&&`/`||` swapped, relational operators moved to their")
     out.append("boundary neighbour, statements and bare calls deleted, `*_pending = true` flipped, constants +1 and")
@@ -84,6 +117,8 @@ def main():
     caught_by = collections.Counter()
     for n, f, line, op, v in rows:
         k = v.split(" ")[0]
+        if k.startswith("BROKEN"):
+            k = "SURVIVED"
         if k == "SURVIVED" and n in retest:
             k = "CAUGHT-AFTER"
         verdicts[k] += 1
